@@ -80,8 +80,12 @@ def tot_of(v, c):
     return (1, 2, 4, 8)[(v + c) % 4]
 
 
-def stop_eval(rule, cnt, errv, errt, rep):
+def stop_eval(rule, cnt, errv, errt, rep, skipped=0, elapsed=0.0):
     k = rule.get("kind", "always")
+    if k == "skips_lt":
+        return skipped < rule["S"]
+    if k == "time_lt":
+        return elapsed < rule["T"]
     if k == "always":
         return True
     if k == "rep_lt":
@@ -149,6 +153,7 @@ class ScriptedRunner(SimulationRunner):
         kind, val, tot, dur = w.outcome(self.pname, v, c)
         w.clock.now += dur
         w.sim_time += dur
+        w.var_elapsed[v] = w.var_elapsed.get(v, 0.0) + dur
         w.cur_v = v
         obs = canon_params(current_parameters.parameters)
         if kind == "skip":
@@ -182,7 +187,12 @@ class ScriptedRunner(SimulationRunner):
             return True
         cnt = current_sim_results["cnt"][-1].get_result()
         e = current_sim_results["err"][-1]
-        return stop_eval(rule, cnt, e._value, e._total, current_rep)
+        skipped = 0
+        if rule.get("kind") == "skips_lt":
+            skipped = current_sim_results["num_skipped_reps"][-1].get_result()
+        v = max(0, current_params.unpack_index)
+        elapsed = w.var_elapsed.get(v, 0.0)        # the user program's own budget: time spent inside its iterations
+        return stop_eval(rule, cnt, e._value, e._total, current_rep, skipped, elapsed)
 
     def _on_simulate_start(self):
         self.w.seams.seam("cb:sim_start")
@@ -192,6 +202,7 @@ class ScriptedRunner(SimulationRunner):
 
     def _on_simulate_current_params_start(self, current_params):
         self.w.cur_v = max(0, current_params.unpack_index)
+        self.w.var_elapsed[max(0, current_params.unpack_index)] = 0.0
         self.w.hook_log.append(("start", max(0, current_params.unpack_index), canon_params(current_params.parameters), None))
         self.w.seams.seam("cb:params_start")
 
@@ -232,6 +243,7 @@ class World:
         self.exec_ok = {}
         self.trace = []
         self.hook_log = []
+        self.var_elapsed = {}
         self.faults = {}
         self.probes = {}
         self.states = []
@@ -403,6 +415,8 @@ class World:
                 undefined = True
                 break
             key = (pname, v)
+            skipped = 0              # the runner's own 'num_skipped_reps' result starts again with every (re)start of a variation
+            elapsed = 0.0            # virtual seconds spent in this variation in this incarnation
             if d["state"] == "ok":
                 rep, ids, cnt, errv, errt = d["rep"], list(d["ids"]), d["cnt"], d["errv"], d["errt"]
                 loaded = True
@@ -412,8 +426,11 @@ class World:
                 while True:          # first repetition: a skipped repetition is never counted -> try again
                     c = calls.get(key, 0)
                     calls[key] = c + 1
-                    kind, val, tot, _ = self.outcome(pname, v, c)
+                    kind, val, tot, dur_ = self.outcome(pname, v, c)
+                    elapsed += dur_
                     trace.append((v, c, kind, canon_params(vs[v])))
+                    if kind != "ok":
+                        skipped += 1
                     if kind == "ok":
                         serial += 1
                         ids.append(serial)
@@ -422,11 +439,14 @@ class World:
                     if len(trace) > 100000:
                         raise HarnessError("script never succeeds")
                 rep = 1
-            while stop_eval(rule, cnt, errv, errt, rep) and rep < rep_max:
+            while stop_eval(rule, cnt, errv, errt, rep, skipped, elapsed) and rep < rep_max:
                 c = calls.get(key, 0)
                 calls[key] = c + 1
-                kind, val, tot, _ = self.outcome(pname, v, c)
+                kind, val, tot, dur_ = self.outcome(pname, v, c)
+                elapsed += dur_
                 trace.append((v, c, kind, canon_params(vs[v])))
+                if kind != "ok":
+                    skipped += 1
                 if kind == "ok":
                     serial += 1
                     ids.append(serial)
@@ -456,6 +476,7 @@ class World:
         self.inc_calls = 0
         self.trace = []
         self.hook_log = []
+        self.var_elapsed = {}
         self.succ_in_v = {}
         self.loaded_in_v = {}
         self.cur_v = None
